@@ -8,6 +8,9 @@ CLAIMS = {
  "C15": dict(cat="other", tech="static analysis: single-writer + must-pass-through rules over MIR call graph/CFG (dominators, path counting)",
    text="Decides the wiring of the cycle limit on the current source: System.clk has exactly one writer; the comparison there is equivalent to `clk > max_cycles`, returns CycleLimitExceeded and dominates every trace write; max_cycles flows unchanged from ExecutionOptions; every decoder row producer is followed by exactly one execute_op which advances the clock exactly once; every executor loop executes an operation; ExecutionOptions::new has both rejecting comparisons and no other constructor bypasses them. Universally quantified over code sites, so it holds for every program; it does not count cycles numerically.",
    note="Trusted: " + TB + ". Not decided: the numeric cycle count of a given program.", ref="§3 C15"),
+ "C04": dict(cat="other", tech="static analysis: abstract interpretation of the AIR's MIR into exact constraint polynomials per opcode (constant propagation, canonical forms), compared with the parsed specification; call-graph reachability for wiring",
+   text="The constraint polynomials are reconstructed from the AIR source (mirsym over MIR facts) for each of the 89 opcodes and compared with obligations parsed at run time from docs/src/design: every documented copy/shift cell must have exactly the constraint s_i' - s_j (up to a unit), every operation-specific cell must be fixed by a constraint linear in it with a constant non-zero coefficient (a per-cell proof that a wrong value violates a constraint) or be a listed conditional cell that occurs in an active constraint, every documented formula that parses must be present up to a unit, flag_X(opcode_Y) is the identity matrix, depth/overflow constraints have their canonical forms, the range-checker polynomial has roots {0,3^k} and b_range is the LogUp identity, chiplet slots are selector-gated and mention every listed column, and every enforce_* function is wired. Breaking any of these makes some wrong transition acceptable, for every trace.",
+   note="Trusted: " + TB + "; the mirsym interpreter; docs/src/design as oracle; frozen CONDITIONAL/EXEMPT/LATEX_DISCREPANCIES tables (each row with its reason). Chiplet determinacy, conditional cells and bus-defined cells are not decided. Level is 'other' because listed known findings leave obligations undischarged.", ref="§3 C04"),
 }
 
 NA = {
